@@ -5,7 +5,8 @@
 -/
 namespace Icinga.C15.Spec
 
-/-- outcome strings of the harness: `v:<canonical value>`, `e:<kind>[:<hex>]`, `syntax@L:C:<hex>`,
+/-- outcome strings of the harness: `v:<canonical value>`, `e` (script error) / `e:stack` (the recursion error),
+    `syntax@L:C` / `syntaxcap@L:C` (parser capacity),
     `crash:sig=N`, `timeout`; hostile stream: `ok`, `err:syntax@L:C`, `err:script`, `err:std`, `crash:sig=N`, `timeout`. -/
 structure Obs where
   min : String
@@ -21,8 +22,7 @@ def isTimeout (r : String) : Bool := r == "timeout"
 
 /-- the bison parser stack is bounded (YYMAXDEPTH): beyond a few thousand nested constructs the compiler answers with
     the located syntax error "memory exhausted" — a script error, not a crash; such texts say nothing about evaluation. -/
-def isParserCapacity (r : String) : Bool :=
-  pre "syntax@" r && r.toList.reverse.take 32 == "6d656d6f727920657868617573746564".toList.reverse
+def isParserCapacity (r : String) : Bool := pre "syntaxcap@" r || pre "err:syntaxcap@" r
 
 /-- a generated (syntactically valid) program: first violated clause, if any. -/
 def checkProgram (o : Obs) : Option String :=
@@ -32,7 +32,7 @@ def checkProgram (o : Obs) : Option String :=
   else if o.min != o.again then some "deterministic"
   else if o.min != o.full then some "precedence_as_declared"
   else if pre "syntax" o.min then some "generated_program_parses"
-  else if !(pre "v:" o.min || pre "e:" o.min) then some "value_or_script_error"
+  else if !(pre "v:" o.min || pre "e" o.min) then some "value_or_script_error"
   else none
 
 /-- `err:syntax@L:C` must carry a location inside the text (line ≥ 1). -/
@@ -44,6 +44,7 @@ def syntaxLocated (r : String) : Bool :=
 /-- a hostile text (mutated program / arbitrary bytes): it must only return or throw. -/
 def checkHostile (r : String) : Option String :=
   if isCrash r then some "no_crash"
+  else if isParserCapacity r then none
   else if pre "err:syntax@" r && !syntaxLocated r then some "syntax_error_located"
   else if r == "ok" || r == "timeout" || pre "err:" r then none
   else some "value_or_script_error"
